@@ -73,6 +73,8 @@ type replayer struct {
 	dir  string
 	bins map[string]string // pkg -> test binary
 	errs map[string]string
+	trace      bool
+	lastOutput string
 }
 
 func newReplayer() *replayer {
@@ -127,9 +129,15 @@ func (r *replayer) run(w *Witness) (*nativeOutcome, error) {
 	cmd := exec.Command(bin, "-test.run", "^TestVerifReplay$", "-test.timeout", "120s", "-test.count", "1")
 	cmd.Dir = r.dir
 	cmd.Env = append(os.Environ(), "VERIF_REPLAY="+wp, "VERIF_OUT="+op)
+	if r.trace {
+		cmd.Env = append(cmd.Env, "VERIF_TRACE=1")
+	}
 	var buf bytes.Buffer
 	cmd.Stdout, cmd.Stderr = &buf, &buf
 	runErr := cmd.Run()
+	if r.trace {
+		r.lastOutput = buf.String()
+	}
 	ob, err := os.ReadFile(op)
 	if err != nil {
 		// process died before writing an outcome: a runtime fatal error or os.Exit inside the code under test
@@ -214,6 +222,15 @@ func cmdCheck(args []string) int {
 		nw, _ = strconv.Atoi(v)
 	}
 	jobs := spec.Jobs(tier)
+	if f := os.Getenv("GOSYM_ONLYJOB"); f != "" { // debugging aid: run only the jobs whose name contains f
+		var sel []*JobCfg
+		for _, j := range jobs {
+			if strings.Contains(j.Name, f) {
+				sel = append(sel, j)
+			}
+		}
+		jobs = sel
+	}
 	results := make([]*JobResult, len(jobs))
 	par, per := 1, nw
 	if len(jobs) >= 4 && nw >= 8 {
@@ -558,6 +575,64 @@ func cmdReplay(args []string) int {
 		if a == attempts-1 {
 			fmt.Printf("replay of %s (%s%v, expect %s): not reproduced\n%s\n", args[0], w.Func, w.Params, w.Expect, ob)
 		}
+	}
+	return 0
+}
+
+// cmdTrace: debugging aid for engine/native disagreements. The harness is run in the engine with
+// every input pinned to the witness's values (one path) and natively with VERIF_TRACE=1; the notes
+// (verifrt.Note) and observations of both runs are printed side by side.
+func cmdTrace(args []string) int {
+	if len(args) < 1 {
+		usage()
+	}
+	b, err := os.ReadFile(args[0])
+	if err != nil {
+		fatalf(2, "%v", err)
+	}
+	var w Witness
+	if err := json.Unmarshal(b, &w); err != nil || w.Pkg == "" {
+		fatalf(2, "not a witness file")
+	}
+	var cfg *JobCfg
+	for _, spec := range checks {
+		for _, tier := range []string{"quick", "thorough"} {
+			for _, j := range spec.Jobs(tier) {
+				if cfg == nil && j.Name == w.Job && j.Func == w.Func {
+					cfg = j
+					cfg.Property = spec.ID
+				}
+			}
+		}
+	}
+	if cfg == nil {
+		cfg = &JobCfg{Property: "trace", Name: w.Job, Pkg: w.Pkg, Func: w.Func, Params: w.Params, MapOrderOff: true}
+	}
+	cfg.Known = map[string]KnownFinding{}
+	cfg.Fixed = w.Inputs
+	cfg.TraceOut = true
+	cfg.Witnesses = 4
+	prog, _ := loadProgram(w.Pkg)
+	res := runJob(prog, cfg, 1)
+	fmt.Println(res.summary())
+	for _, wt := range res.Witnesses {
+		fmt.Println("--- engine observations:")
+		for _, o := range wt.Obs {
+			fmt.Printf("    %s %s int=%d bytes=%q\n", o.Label, o.Kind, o.Int, o.Bytes)
+		}
+	}
+	rp := newReplayer()
+	defer rp.close()
+	rp.trace = true
+	o, err := rp.run(&w)
+	if err != nil {
+		fatalf(2, "%v", err)
+	}
+	fmt.Println("--- native run:")
+	fmt.Print(rp.lastOutput)
+	fmt.Printf("--- native outcome: failed=%v panic=%q diverged=%q\n", o.Failed, o.Panic, o.Diverged)
+	for _, ob := range o.Obs {
+		fmt.Printf("    %s %s int=%d bytes=%q\n", ob.Label, ob.Kind, ob.Int, ob.Bytes)
 	}
 	return 0
 }
